@@ -42,7 +42,7 @@ def generate(r, tier, build):
             if r.chance(1, 3):
                 script[r.below(4)] = "fail"
             reqs.append("system n=%d script=%s ops=%s" % (N, ",".join(script), ",".join(ops)))
-    for gen in ["xoshiro", "splitmix", "wyrand", "chacha8", "chacha12", "chacha20"]:
+    for gen in ["xoshiro", "splitmix", "wyrand", "chacha8", "chacha12", "chacha20", "libnew"]:
         reqs.append("newgen gen=%s script=" % gen)
         reqs.append("newgen gen=%s script=fail" % gen)
     return reqs
@@ -75,7 +75,7 @@ def oracle(req, impl, build):
                 words.append(v)
             else:
                 words += [v & 0xFFFFFFFF, v >> 32]
-        want = {"xoshiro": 8, "splitmix": 2, "wyrand": 2}.get(d["gen"], 12)
+        want = {"xoshiro": 8, "libnew": 8, "splitmix": 2, "wyrand": 2}.get(d["gen"], 12)
         # every state word must be its OWN word of a successful entropy fetch (any order, any number of fetches): tagged, pairwise distinct
         if len(words) != want:
             return "the state has %d words, %d expected" % (len(words), want)
